@@ -89,35 +89,32 @@ def _worker(args):
             except Exception as e:
                 rec.update(status="error", backend="-", seconds=0.0, error="%s\n%s" % (e, traceback.format_exc()))
         out["obligations"].append(rec)
-    # vacuity probe (first chunk of the function only): for every proof goal that is reached at all, at least one of the
-    # paths reaching it must have satisfiable hypotheses -- otherwise it was "proved" from a contradiction (typically
-    # an assumed callee postcondition that cannot hold)
-    if chunk == 0 and res.error is None:
+    # vacuity probe: for every proof goal that is reached at all, at least one of the paths reaching it must have
+    # satisfiable hypotheses -- otherwise it was "proved" from a contradiction (typically an assumed callee postcondition
+    # that cannot hold).  Feasibility is a property of the path: it is decided once per path, on the path's last
+    # obligation (its hypotheses include those of every earlier obligation); the paths are spread over the chunks and
+    # the verdict per goal is combined in main().
+    if res.error is None:
         groups = {}
+        last_of_path = {}
         for ob in all_obligations:
+            pk = str(ob.meta.get("path"))
+            last_of_path[pk] = ob
             nm = ob.name
             if ob.meta.get("trivial") or not any(t in nm for t in (".ensures[", ".preserved[", ".class_inv[")):
                 continue
-            groups.setdefault(nm, []).append(ob)
-        vac = []
-        # feasibility is a property of the path: decide it once per path, on the path's last obligation (its hypotheses
-        # include those of every earlier obligation of the path)
-        last_of_path = {}
-        for ob in all_obligations:
-            last_of_path[str(ob.meta.get("path"))] = ob
+            groups.setdefault(nm, set()).add(pk)
+        needed = sorted({pk for pks in groups.values() for pk in pks})
         path_ok = {}
-
-        def feasible_path(pk):
-            if pk not in path_ok:
-                try:
-                    path_ok[pk] = not solve.hyps_refutable(last_of_path[pk], res.str_axioms)
-                except Exception:
-                    path_ok[pk] = True
-            return path_ok[pk]
-        for nm, obs in groups.items():
-            if not any(feasible_path(str(ob.meta.get("path"))) for ob in obs):
-                vac.append(nm)
-        out["vacuous"] = vac
+        for i, pk in enumerate(needed):
+            if i % nchunks != chunk:
+                continue
+            try:
+                path_ok[pk] = not solve.hyps_refutable(last_of_path[pk], res.str_axioms, deep=(tier == "thorough"))
+            except Exception:
+                path_ok[pk] = True
+        out["probe_groups"] = {nm: sorted(pks) for nm, pks in groups.items()} if chunk == 0 else None
+        out["path_ok"] = path_ok
     out["seconds"] = time.time() - t0
     return out
 
@@ -143,7 +140,7 @@ def load_known(prop):
             toks = rest.strip().split(" ")
             what = []
             for t in toks:
-                if "=" in t and not what and t.split("=")[0] in ("property", "obligation", "commit", "trail"):
+                if "=" in t and not what and t.split("=")[0] in ("property", "obligation", "commit", "trail", "branch"):
                     k, v = t.split("=", 1)
                     fields[k] = v
                 else:
@@ -257,6 +254,9 @@ def main(argv=None):
             tr = k.get("trail")
             if tr and not ",".join(o.get("trail") or []).endswith(tr):
                 continue      # same obligation, different history: not the listed finding
+            br = k.get("branch")
+            if br and not ",".join(str(x) for x in (o.get("path") or [])).endswith(br):
+                continue      # same obligation reached through other branches: not the listed finding
             return k
         return None
     all_obs = []
@@ -267,8 +267,14 @@ def main(argv=None):
             (crashes if r["error"].startswith("crash") else errors).append((r["key"], r["error"]))
         if r.get("requires_sat") == "unsat":
             crashes.append((r["key"], "vacuity: contradictory requires"))
-        for nm in r.get("vacuous") or []:
-            crashes.append((r["key"], "vacuity: every path reaching %s has contradictory hypotheses" % nm))
+        if r.get("probe_groups"):
+            ok = {}
+            for r2 in results:
+                if r2["key"] == r["key"]:
+                    ok.update(r2.get("path_ok") or {})
+            for nm, pks in r["probe_groups"].items():
+                if pks and all(ok.get(pk) is False for pk in pks):
+                    crashes.append((r["key"], "vacuity: every path reaching %s has contradictory hypotheses" % nm))
         if not r["error"] and not r["obligations"]:
             crashes.append((r["key"], "vacuity: zero obligations generated"))
         if not r["error"] and r.get("has_ensures") and not r["outcomes"].get("normal"):
